@@ -1,9 +1,11 @@
-\* epoch in file names, keep everything, single crash
+\* epoch in file names, keep everything, single crash; parameter setting P1 (patience 2, burn-in, cool-down, epsilon guard)
 INIT Init
 NEXT Next
 CONSTANTS
   EpochFmt = TRUE
   KeepLB = FALSE
+  BestTrain = FALSE
+  Params <- FsP1
   MaxE = 4
   MaxCrash = 1
   Levels = {1, 2, 3}
@@ -14,4 +16,6 @@ INVARIANT BestLoadable
 INVARIANT ExactlyTwo
 INVARIANT AllLoadable
 INVARIANT Convergent
+INVARIANT LiveRate
+INVARIANT Export
 CHECK_DEADLOCK FALSE
